@@ -81,7 +81,16 @@ fn replay(beh: &Value) -> Bad {
                 match old {
                     H::C(r) => match catch(move || to_dyn!(Val, r)) {
                         Ok(d) => {
+                            if s(a, "outcome") != "converted" {
+                                return Some((usize::MAX, "inapplicable".into(), json!(null), json!(null))); // the build converts this variant: other branch of the specification
+                            }
                             hs.push(H::D(d));
+                            Ok(None)
+                        }
+                        Err(p) if p.contains("not implemented") && !matches!(variant, "Ptr" | "RcRefCell" | "PtrRwLock") => {
+                            if s(a, "outcome") != "refused" {
+                                return Some((usize::MAX, "inapplicable".into(), json!(null), json!(null))); // the build refuses this variant
+                            }
                             Ok(None)
                         }
                         Err(p) => Err(p),
@@ -239,7 +248,12 @@ fn main() {
         if steps.iter().any(|st| st["a"]["op"] == "write") && steps.iter().any(|st| st["a"]["op"] == "clone" || st["a"]["op"] == "to_dyn") {
             rep.count("nontrivial", 1);
         }
-        if let Some((step, what, exp, got)) = replay(&beh) {
+        let res = replay(&beh);
+        if matches!(&res, Some((usize::MAX, _, _, _))) {
+            rep.count("inapplicable_branch", 1);
+            continue;
+        }
+        if let Some((step, what, exp, got)) = res {
             rep.mismatch(json!({"line": ln, "variant": beh["variant"], "step": step, "what": what, "exp": exp, "got": got,
                                 "caller_alloc": cfg!(feature = "alloc"), "caller_std": cfg!(feature = "std")}));
         }
